@@ -642,7 +642,7 @@ def run(ctx):
                    "variants (one blank toggled at every token boundary of %d base statements), %d seeded generated files checked with go/types, each in "
                    "base style and 3 whitespace variants (blanks added before any token except a statement-head call parenthesis / index bracket, "
                    "blanks removed where tokens stay separate, newlines after binary operators, commas and opening brackets; the send arrow keeps its "
-                   "blank on both sides); the generator produces no generics, no '$' in string literals and no command-style spacing: those dimensions are "
+                   "blank on both sides); integer / float literals are drawn from both letter cases of radix prefixes, exponents and hex digits; the generator produces no generics, no '$' in string literals and no command-style spacing: those dimensions are "
                    "covered by the deterministic sets; non-trivial = distinct file" % (nrepo, ngoroot, len(GOROOT_PKGS), len(CRAFT), nws, len(WS_BASE), ngen),
               file_verdicts=dict(sorted(hist.items())))
     ctx.assume("go/parser and go/types of the installed toolchain (go1.23) define 'valid Go'; function bodies are compared by the harness' own "
